@@ -138,16 +138,16 @@ type Runner struct {
 	M      map[int]*MEntry
 	St     RunStats
 
-	step        int
-	seq         int
-	expAtomic   map[int]pend
-	expAsync    map[int]pend
-	seenAtomic  map[int]bool
-	seenAsync   map[int]bool
-	installed   map[int]int // val -> key
-	cur         *Action
-	loaderCalls []loaderCall
-	pendRefresh []pendRefresh
+	step         int
+	seq          int
+	expAtomic    map[int]pend
+	expAsync     map[int]pend
+	seenAtomic   map[int]bool
+	seenAsync    map[int]bool
+	installed    map[int]int // val -> key
+	cur          *Action
+	loaderCalls  []loaderCall
+	pendRefresh  []pendRefresh
 	refreshChans []*refreshWait
 
 	// stats tally
@@ -206,9 +206,9 @@ func (wrappedNotFound) Unwrap() error { return otter.ErrNotFound }
 // NewRunner builds the environment for a script.
 func NewRunner(cfg Config, facets Facet) *Runner {
 	r := &Runner{
-		Cfg:    cfg,
-		Facets: facets,
-		M:      map[int]*MEntry{},
+		Cfg:       cfg,
+		Facets:    facets,
+		M:         map[int]*MEntry{},
 		expAtomic: map[int]pend{}, expAsync: map[int]pend{},
 		seenAtomic: map[int]bool{}, seenAsync: map[int]bool{},
 		installed:        map[int]int{},
@@ -532,7 +532,6 @@ func (r *Runner) reconcile() error {
 	}
 	return nil
 }
-
 
 // autoRemove applies an automatic removal (Overflow / Expiration of the current
 // value) to the model after checking that it is justified (C07).
